@@ -2,11 +2,12 @@
 # usage: tools/try_harmless.sh <patch.diff>  — apply a behaviour-preserving rewrite to /repo, run ALL quick
 # checks (5 at a time), list every alarm, undo. A VIOLATION here is a false alarm to analyse.
 patch=$(realpath $1)
-cd /verif
-if ! git -C /repo diff --quiet; then echo "/repo dirty"; exit 2; fi
-git -C /repo apply "$patch" || { echo "patch does not apply"; exit 2; }
-EVBAK=$(mktemp -d); cp -r /verif/evidence/. $EVBAK/
-trap 'git -C /repo apply -R "$patch" 2>/dev/null; git -C /repo checkout -- . ; git -C /repo clean -fdq -- . ; cp -r $EVBAK/. /verif/evidence/; rm -rf $EVBAK' EXIT
-(cd /repo && GOFLAGS=-mod=mod GOPROXY=off GOSUMDB=off GOTOOLCHAIN=local go build ./... && go test -vet=off -count=1 ./... 2>&1 | grep -v "no test files" | grep -v "^ok" | head -5)
+cd "$(dirname "$0")/.."
+R="${VERIF_REPO:-/repo}"
+if ! git -C "$R" diff --quiet; then echo "/repo dirty"; exit 2; fi
+git -C "$R" apply "$patch" || { echo "patch does not apply"; exit 2; }
+EVBAK=$(mktemp -d); cp -r evidence/. $EVBAK/
+trap 'git -C "$R" apply -R "$patch" 2>/dev/null; git -C "$R" checkout -- . ; git -C "$R" clean -fdq -- . ; cp -r $EVBAK/. evidence/; rm -rf $EVBAK' EXIT
+(cd "$R" && GOFLAGS=-mod=mod GOPROXY=off GOSUMDB=off GOTOOLCHAIN=local go build ./... && go test -vet=off -count=1 ./... 2>&1 | grep -v "no test files" | grep -v "^ok" | head -5)
 printf "%s\n" C01 C02 C03 C04 C05 C06 C07 C08 C09 C10 C11 C12 C13 C14 C15 C16 C17 C18 C19 C20 | xargs -P 5 -I{} sh -c './check {} quick 2>&1 | grep -E "^VIOLATION" | sed "s/^/{} /"' 
 echo "harmless run finished"
